@@ -11,6 +11,7 @@ that parity in about half of the cases and changes the transcription.
 """
 import numpy as np
 import scipy.sparse as sp
+import torch
 
 from pero_ocr.core.layout import PageLayout, RegionLayout, TextLine
 from pero_ocr.decoding.decoders import CTCPrefixLogRawNumpyDecoder, BLANK_SYMBOL
@@ -64,6 +65,73 @@ class ContextLM:
         return np.zeros(len(h.ps))
 
 
+# ---- the same context LM behind the REAL pero_ocr.decoding.lm_wrapper.LMWrapper / HiddenState ----------------------------------
+# hidden state = one float64 scalar per beam entry: the history in base 64 behind a leading 1 (0 = '</s>', c + 1 = letter c);
+# initial_h, initial_h_from_line, add_line_end, advance_h0, log_probs are then the wrapper's own code (torch tensors, in-place
+# __setitem__), with exactly the semantics of ContextLM above.
+WBASE = 64
+
+
+def hist_of_scalar(x):
+    n = int(round(float(x)))
+    ds = []
+    while n > 1:
+        ds.append(n % WBASE)
+        n //= WBASE
+    return tuple(reversed(ds))
+
+
+def hist_of(h):
+    """history tuple of the first entry of an LM state, whichever implementation produced it"""
+    if hasattr(h, "ps"):
+        return tuple(h.ps[0])
+    return hist_of_scalar(h.prepare_for_torch().reshape(-1)[0])
+
+
+class _WModel(torch.nn.Module):
+    def forward(self, xs, hs):
+        h = hs.clone()
+        for j in range(xs.shape[1]):
+            h = h * WBASE + xs[:, j].to(h.dtype).view(1, -1, 1)
+        return None, h
+
+    def init_hidden(self, bsz):
+        return torch.ones((1, bsz, 1), dtype=torch.float64)
+
+
+class _WOut(torch.nn.Module):
+    def __init__(self, nc):
+        super().__init__()
+        self.nc = nc
+
+    def forward(self, hs):
+        rows = []
+        for x in hs.reshape(-1).tolist():
+            hh = hist_hash(hist_of_scalar(x))
+            rows.append([0.0] + [np.log(3.0) if (hh + c) % 2 == 0 else 0.0 for c in range(self.nc)])
+        return torch.tensor(rows, dtype=torch.float64)
+
+
+class _WLm(torch.nn.Module):        # module-level classes: parse_folder --process-count 2 pickles the page parser
+    def __init__(self, nc):
+        super().__init__()
+        self.model = _WModel()
+        self.decoder = _WOut(nc)
+        self.vocab = {'</s>': 0}
+        self.vocab.update({chr(97 + i): i + 1 for i in range(nc)})
+        self._unused_prefix_len = 1
+
+
+def make_wrapped_context_lm(nc):
+    from pero_ocr.decoding.lm_wrapper import LMWrapper
+    return LMWrapper(_WLm(nc), [chr(97 + i) for i in range(nc)], torch.device("cpu"))
+
+
+def flavour_of(cfgid):
+    """which LM implementation / beam width a page-content configuration is decoded with (same for 'alone' and histories)"""
+    return [("toy", BEAM), ("wrapped", 1), ("wrapped", BEAM), ("toy", 1)][(cfgid // 2) % 4]
+
+
 class RecordingDecoder:
     """the real prefix decoder; notes the LM state every call starts from"""
     def __init__(self, dec):
@@ -74,7 +142,7 @@ class RecordingDecoder:
 
     def __call__(self, logits, **kw):
         init_h = kw.get("init_h")
-        self.calls.append((self.current_line, None if init_h is None else tuple(init_h.ps[0])))
+        self.calls.append((self.current_line, None if init_h is None else hist_of(init_h)))
         return self.dec(logits, **kw)
 
 
@@ -130,8 +198,9 @@ def make_page(page, kinds, nlines, n_total):
     return pl
 
 
-def make_page_decoder(carry, kinds, n_total, record=True):
-    dec = CTCPrefixLogRawNumpyDecoder(letters_for(n_total), BEAM, lm=ContextLM(2 * n_total), lm_scale=1.0)
+def make_page_decoder(carry, kinds, n_total, record=True, flavour=("toy", BEAM)):
+    lm = make_wrapped_context_lm(2 * n_total) if flavour[0] == "wrapped" else ContextLM(2 * n_total)
+    dec = CTCPrefixLogRawNumpyDecoder(letters_for(n_total), flavour[1], lm=lm, lm_scale=1.0)
     rec = RecordingDecoder(dec) if record else dec
     thr = THRESHOLD if any(k == 1 for k in kinds.values()) else None
     pd = PageDecoder(rec, line_confidence_threshold=thr, carry_h_over=carry)
@@ -186,7 +255,7 @@ def alone_results(cfgid, pages, nlines, nk):
     n_total = len(pages) * nlines
     out = {}
     for p in pages:
-        pd, _ = make_page_decoder(carry, kinds, n_total, record=False)
+        pd, _ = make_page_decoder(carry, kinds, n_total, record=False, flavour=flavour_of(cfgid))
         out[p] = results_of(pd.process_page(make_page(p, kinds, nlines, n_total)))
     return out
 
@@ -201,7 +270,7 @@ def run_history(cfgid, pages, nlines, nk, history, alone=None):
     calls = []
     for worker, page in history:
         if worker not in inst:
-            inst[worker] = make_page_decoder(carry, kinds, n_total)
+            inst[worker] = make_page_decoder(carry, kinds, n_total, flavour=flavour_of(cfgid))
         pd, rec = inst[worker]
         rec.calls = []
         outcome = "ok"
@@ -218,7 +287,7 @@ def run_history(cfgid, pages, nlines, nk, history, alone=None):
                       "res": results_of(pl), "alone": alone[page],
                       "last_line": tag_of_text(text_codes(last_line), nlines) if last_line else [],
                       "has_h": bool(has_h),
-                      "last_h": tags_of_history(pd.last_h.ps[0], nlines) if has_h else []})
+                      "last_h": tags_of_history(hist_of(pd.last_h), nlines) if has_h else []})
     return {"cfgid": cfgid, "hist": [[w, p] for w, p in history], "calls": calls}
 
 
@@ -252,7 +321,8 @@ class DecodingPageParser(PageParser):
         self.run_ocr = True
         self.ocr = StubOcr()
         self.run_decoder = True
-        self.decoder = make_page_decoder(carry, kinds, len(PAR["pages"]) * PAR["nlines"], record=False)[0]
+        self.decoder = make_page_decoder(carry, kinds, len(PAR["pages"]) * PAR["nlines"], record=False,
+                                         flavour=flavour_of(PAR["cfgid"]))[0]
 
 
 def read_results(xml_dir, pages):
